@@ -32,6 +32,7 @@ class Capture:
                 raise
             for k, v in fb.functions.items():
                 fns[k]['locals'] = sorted(v['locals'])
+                fns[k]['locals_ordered'] = list(v['locals'])      # = the parameters of __create_<name>_fn__
             cap.batches.append({'functions': fns, 'globals': g_in, 'error': None})
             return out
         FunctionBuilder.create_functions = wrapped
